@@ -39,6 +39,15 @@ CLAIMED = {
              "Correspondence sampled: every count 0..200 on WAV, spreads elsewhere, boundary payload sizes, iterator patterns; 16-bit PCM files only.",
         technique="Lean 4 theorems over a hand-written model + sampled correspondence (sfmodel chunks vs sfh under ASan) + property predicate on the implementation transcript",
         design_ref="DESIGN.md §7 C13"),
+    "C17": dict(
+        text="Proof (Lean 4) over a table-shaped model of sf_command (guards as written, byte ranges read/written through data, return value, handle step): "
+             "cmd_in_bounds_partial (every range inside [0,datasize), NULL never dereferenced, return defined, for all ids/handles/sizes/memory contents outside three "
+             "decidable known-finding classes), string_cmds_terminate, queries_are_pure_partial; the full statements are refuted with concrete witnesses "
+             "(strlen after snprintf of size 0; length field read before the size check; psf_strlcpy_crlf reading src[1] past the end; SFC_CALC_* moving the read cursor in RDWR mode). "
+             "Tied to the code by the complete grid: every SFC_* id of sndfile.h + undefined ids x datasize 0..sizeof+8, 4096, INT_MAX x {NULL, exact poisoned-tail block} "
+             "x {NULL, r, w, rw} x 7 formats under ASan, fresh handle per point, state digest before/after.",
+        technique="Lean 4 theorems over a hand-written model + exhaustive grid correspondence under ASan",
+        design_ref="DESIGN.md §7 C17"),
 }
 
 CLAIMED["C02"] = dict(
